@@ -192,7 +192,7 @@ func (s *syncStandaloneRegistry) getTestID(snapPath, snapPathRel string) (string
 	c := s.running[snapPath]
 	s.Unlock()
 
-	return fmt.Sprintf(snapPath, c), fmt.Sprintf(snapPathRel, c)
+	return standaloneOccurrenceFMT(snapPath, c), standaloneOccurrenceFMT(snapPathRel, c)
 }
 
 func (s *syncStandaloneRegistry) reset(snapPath string) {
